@@ -743,10 +743,6 @@ Section Frame.
       + eapply fpres_ext; [intro; apply generate_task_call_S|]. apply fpres_gtc_body; assumption.
   Qed.
 
-  Theorem frame_generate_petri_net : forall f, fpres R (generate_petri_net tasks f) ->
-                                               fpres R (generate_petri_net tasks f).
-  Proof. auto. Qed.
-
   (* ---- the scheduler block ---- *)
   Variable env : envcfg.
 
@@ -851,6 +847,11 @@ Section Frame.
       + eapply fpres_ext; [intro; apply logic_fire_event_S|]. apply fpres_lfe_body; assumption.
   Qed.
 End Frame.
+Arguments frame_generate {R} FR tasks f.
+Arguments frame_block {R} FR tasks env f.
+Arguments fpres_parloop_generate {R} FR tasks env.
+Arguments fpres_scan_with {R} FR.
+
 
 (* ---- instance: the net only grows ---- *)
 
@@ -1427,3 +1428,167 @@ Section Quiescence.
   Qed.
 
 End Quiescence.
+
+(* =========================================================================== *)
+(* 5. further instances of the frame rule                                        *)
+(* =========================================================================== *)
+
+(* (a) what the mechanism never writes: the start and final place, the identifier mode, the
+   registered functions, the observers *)
+Definition fixed_fields (s s' : NS) : Prop :=
+  ns_start_place s' = ns_start_place s /\ ns_final_place s' = ns_final_place s /\
+  ns_test_ids s' = ns_test_ids s /\ ns_ls s' = ns_ls s /\ ns_obs s' = ns_obs s.
+
+Theorem fixed_fields_frame : frame_ok fixed_fields.
+Proof.
+  constructor;
+    try (intros; try (match goal with |- fpres _ _ => intros ? ? ? HH; inversion HH; subst; clear HH end);
+         unfold fixed_fields; cbn; repeat split; reflexivity).
+  unfold fixed_fields. intros a b c H1 H2. intuition congruence.
+Qed.
+
+(* (b) counters only increase, the log is only extended at its head *)
+Definition counters_grow (s s' : NS) : Prop :=
+  ns_fresh s <= ns_fresh s' /\ ns_tid s <= ns_tid s' /\ ns_sid s <= ns_sid s' /\
+  ns_nss s <= ns_nss s' /\ ns_nnot s <= ns_nnot s' /\
+  exists es, ns_log s' = es ++ ns_log s.
+
+Theorem counters_grow_frame : frame_ok counters_grow.
+Proof.
+  constructor;
+    try (intros; try (match goal with |- fpres _ _ => intros ? ? ? HH; inversion HH; subst; clear HH end);
+         unfold counters_grow; cbn; repeat split; try lia; first [exists []; reflexivity | eexists; reflexivity]).
+  unfold counters_grow. intros a b c (A1 & A2 & A3 & A4 & A5 & ea & A6) (B1 & B2 & B3 & B4 & B5 & eb & B6).
+  repeat split; try lia. exists (eb ++ ea). rewrite B6, A6, app_assoc. reflexivity.
+Qed.
+
+(* (c) a removed place stays removed, an existing place keeps its identifier; places are only
+   ever added at the end *)
+Definition places_stable (s s' : NS) : Prop :=
+  forall p, (nth_error (ns_places s) p = Some None -> nth_error (ns_places s') p = Some None) /\
+            (p < List.length (ns_places s) -> has_place s' p = true -> has_place s p = true).
+
+Lemma nth_error_upd : forall A n (f : A -> A) l m,
+    nth_error (upd n f l) m = if Nat.eqb n m then option_map f (nth_error l m) else nth_error l m.
+Proof.
+  intros A n f l. revert n. induction l as [|x l IH]; intros n m.
+  - destruct n, m; cbn; try reflexivity; destruct (Nat.eqb n m); reflexivity.
+  - destruct n as [|n], m as [|m]; cbn; try reflexivity. apply IH.
+Qed.
+
+Definition places_rel (ps ps' : list (option nat)) : Prop :=
+  forall p, (nth_error ps p = Some None -> nth_error ps' p = Some None) /\
+            (p < List.length ps ->
+             (exists k, nth_error ps' p = Some (Some k)) -> exists k, nth_error ps p = Some (Some k)).
+
+Lemma places_rel_refl : forall ps, places_rel ps ps.
+Proof. intros ps p. split; auto. Qed.
+
+Lemma places_rel_trans : forall a b c,
+    List.length a <= List.length b -> places_rel a b -> places_rel b c -> places_rel a c.
+Proof.
+  intros a b c L H1 H2 p. destruct (H1 p) as (A1 & A2). destruct (H2 p) as (B1 & B2).
+  split; [auto|]. intros Hp Hc. apply A2; [exact Hp|]. apply B2; [lia|exact Hc].
+Qed.
+
+Lemma places_rel_upd_map : forall ps q (g : nat -> nat), places_rel ps (upd q (option_map g) ps).
+Proof.
+  intros ps q g p. rewrite nth_error_upd. destruct (Nat.eqb q p).
+  - split.
+    + intro H. rewrite H. reflexivity.
+    + intros _ (k & Hk). destruct (nth_error ps p) as [[k0|]|]; cbn in Hk; try discriminate Hk. eauto.
+  - split; auto.
+Qed.
+
+Lemma places_rel_upd_none : forall ps q, places_rel ps (upd q (fun _ => None) ps).
+Proof.
+  intros ps q p. rewrite nth_error_upd. destruct (Nat.eqb q p).
+  - split.
+    + intro H. rewrite H. reflexivity.
+    + intros _ (k & Hk). destruct (nth_error ps p) as [[k0|]|]; cbn in Hk; discriminate Hk.
+  - split; auto.
+Qed.
+
+Lemma places_rel_app : forall ps x, places_rel ps (ps ++ [x]).
+Proof.
+  intros ps x p. split.
+  - intro H. rewrite nth_error_app1; [exact H|]. apply nth_error_Some. congruence.
+  - intros Hp (k & Hk). rewrite nth_error_app1 in Hk by exact Hp. eauto.
+Qed.
+
+Lemma places_rel_fold : forall (g : nat -> nat) l ps,
+    places_rel ps (fold_left (fun ps p => upd p (option_map g) ps) l ps).
+Proof.
+  intros g. induction l as [|q l IH]; intro ps; cbn [fold_left].
+  - apply places_rel_refl.
+  - eapply places_rel_trans; [|apply places_rel_upd_map|apply IH]. rewrite upd_length. lia.
+Qed.
+
+Definition places_stable' (s s' : NS) : Prop :=
+  List.length (ns_places s) <= List.length (ns_places s') /\ places_rel (ns_places s) (ns_places s').
+
+Theorem places_stable_frame : frame_ok places_stable'.
+Proof.
+  constructor;
+    try (intros; try (match goal with |- fpres _ _ => intros ? ? ? HH; inversion HH; subst; clear HH end);
+         unfold places_stable'; cbn; split; [lia|apply places_rel_refl]).
+  - intros a b c (L1 & H1) (L2 & H2). split; [lia|]. eapply places_rel_trans; eauto.
+  - intros s a s' HH; inversion HH; subst; clear HH. unfold places_stable'; cbn. split.
+    + rewrite app_length. lia.
+    + apply places_rel_app.
+  - intros p s a s' HH; inversion HH; subst; clear HH. unfold places_stable'; cbn. split.
+    + rewrite upd_length. lia.
+    + apply places_rel_upd_map.
+  - intros t s a s' HH; inversion HH; subst; clear HH. unfold places_stable'; cbn. split.
+    + rewrite !fold_upd_length. lia.
+    + eapply places_rel_trans; [|apply places_rel_fold|apply places_rel_fold].
+      rewrite fold_upd_length. lia.
+  - intros p s a s' HH; inversion HH; subst; clear HH. unfold places_stable'; cbn. split.
+    + rewrite upd_length. lia.
+    + apply places_rel_upd_none.
+Qed.
+
+Lemma places_stable'_stable : forall s s', places_stable' s s' -> places_stable s s'.
+Proof.
+  intros s s' (L & H) p. destruct (H p) as (H1 & H2). split; [exact H1|].
+  intros Hp Hh. unfold has_place in *.
+  destruct (nth_error (ns_places s') p) as [[k|]|] eqn:E; try discriminate Hh.
+  destruct (H2 Hp (ex_intro _ k eq_refl)) as (k0 & ->). reflexivity.
+Qed.
+
+Section FrameInstances.
+  Variable tasks : list task.
+  Variable env : envcfg.
+
+  (* stated for the two entry points; [frame_block] gives the same for every function *)
+  Theorem sched_fire_event_fixed_fields : forall f ev s b s',
+      sched_fire_event tasks env f ev s = Ok (b, s') -> fixed_fields s s'.
+  Proof.
+    intros f ev s b s' H.
+    eapply (proj1 (proj2 (proj2 (proj2 (proj2 (proj2 (proj2 (proj2 (proj2
+             (frame_block fixed_fields_frame tasks env f)))))))))); eauto.
+  Qed.
+
+  Theorem sched_fire_event_counters_grow : forall f ev s b s',
+      sched_fire_event tasks env f ev s = Ok (b, s') -> counters_grow s s'.
+  Proof.
+    intros f ev s b s' H.
+    eapply (proj1 (proj2 (proj2 (proj2 (proj2 (proj2 (proj2 (proj2 (proj2
+             (frame_block counters_grow_frame tasks env f)))))))))); eauto.
+  Qed.
+
+  Theorem sched_fire_event_places_stable : forall f ev s b s',
+      sched_fire_event tasks env f ev s = Ok (b, s') -> places_stable s s'.
+  Proof.
+    intros f ev s b s' H. apply places_stable'_stable.
+    eapply (proj1 (proj2 (proj2 (proj2 (proj2 (proj2 (proj2 (proj2 (proj2
+             (frame_block places_stable_frame tasks env f)))))))))); eauto.
+  Qed.
+
+  Theorem evaluate_places_stable : forall f s u s',
+      evaluate tasks env f s = Ok (u, s') -> places_stable s s'.
+  Proof.
+    intros f s u s' H. apply places_stable'_stable.
+    eapply (proj1 (frame_block places_stable_frame tasks env f)); eauto.
+  Qed.
+End FrameInstances.
